@@ -14,6 +14,9 @@ CONSTANTS Flows = {1}
           IdleMatters = FALSE
           CheckExpiry = TRUE
           WrapKeeps = FALSE
+          Routines <- NoRoutines
+          CachePeriod = 1
+          CacheSlack = 0
 INVARIANTS TypeOK PassPermitted EntryHasTimer SameReloadKeeps
 CONSTRAINT Bound
 VIEW View
